@@ -181,6 +181,8 @@ var responseSpecs = []layerSpec{
 	{Pkg: "pkg/ipmi", Type: "GetSDRRepositoryInfoRsp", Method: "DecodeFromBytes", Ref: "IPMI v2.0 §33.9",
 		Want: map[string][]string{
 			"Records": {"{d2[7:0],d1[7:0]}"}, "FreeSpace": {"{d4[7:0],d3[7:0]}"}, "Overflow": {"d13[7]"},
+			// 32-bit unsigned seconds since the epoch, LS byte first (§37: 0xFFFFFFFF = unspecified)
+			"LastAddition": {"unix:{d8[7:0],d7[7:0],d6[7:0],d5[7:0]}"}, "LastErase": {"unix:{d12[7:0],d11[7:0],d10[7:0],d9[7:0]}"},
 			"SupportsModalUpdate": {"d13[6]"}, "SupportsNonModalUpdate": {"d13[5]"}, "SupportsDelete": {"d13[3]"}, "SupportsPartialAdd": {"d13[2]"}, "SupportsReserve": {"d13[1]"}, "SupportsGetAllocationInformation": {"d13[0]"},
 			"BaseLayer.Contents": {"d[0:14]"},
 		}},
@@ -247,6 +249,7 @@ var responseSpecs = []layerSpec{
 	{Pkg: "pkg/dcmi", Type: "GetPowerReadingRsp", Method: "DecodeFromBytes", Ref: "DCMI 1.5 §6.6.1",
 		Want: map[string][]string{
 			"Instantaneous": {"{d1[7:0],d0[7:0]}"}, "Min": {"{d3[7:0],d2[7:0]}"}, "Max": {"{d5[7:0],d4[7:0]}"}, "Avg": {"{d7[7:0],d6[7:0]}"},
+			"Timestamp": {"unix:{d11[7:0],d10[7:0],d9[7:0],d8[7:0]}"},
 			"Period": {"lin(1000000·{d15[7:0],d14[7:0],d13[7:0],d12[7:0]})"}, "Active": {"d16[6]"},
 		}},
 	{Pkg: "pkg/ipmi", Type: "GetChannelCipherSuitesRsp", Method: "DecodeFromBytes", Ref: "IPMI v2.0 §22.15 (channel number, then up to 16 bytes of cipher suite record data, verbatim)",
